@@ -188,6 +188,13 @@ func Call(api string, chunk string, in []byte, wantValue bool) (o Obs) {
 		v, err = p.ParseReader(Chunked(b, chunk))
 	case "oj.Load":
 		v, err = oj.Load(Chunked(b, chunk))
+	case "oj.Unmarshal":
+		err = oj.Unmarshal(b, &v)
+	case "oj.Parser.Unmarshal":
+		p := oj.Parser{}
+		err = p.Unmarshal(b, &v)
+	case "oj.ParseString":
+		v, err = oj.ParseString(string(b))
 	case "oj.Validate1":
 		p := oj.Validator{OnlyOne: true}
 		err = p.Validate(b)
